@@ -1,7 +1,10 @@
 ------------------------------- MODULE Xattr -------------------------------
 (* Property level of C15: the extended attributes of one inode are a map  name -> value.
-   A value is abstracted to (length, tag): the harness derives the bytes from the tag, so equal (length, tag)
-   means equal bytes, and a value of length 0 has tag 0 (all empty values are the same value).
+   A value is abstracted to (length, tag, nz): the harness derives the bytes from the tag (a position-dependent
+   pattern without zero bytes, different tags differ at every position); the first nz bytes follow the pattern
+   and the remaining length - nz bytes are zero.  Values written through the attribute interface have nz = length;
+   only the inline-data attribute system.data can have a zero tail (the file was truncated inside the inline
+   area).  Equal (length, tag, nz) means equal bytes, and nz = 0 has tag 0.
    Operations: Set (create or replace), a refused Set (the implementation may answer "no space": the map must then
    be unchanged), Remove (also of an absent name: no effect), Get (reads the map).
    "Reading the attributes back returns exactly the model's name-to-value map" is  Abs(implementation) = attrs,
@@ -12,16 +15,20 @@ CONSTANTS Names,        \* the closed name universe (identifiers; XattrPlace giv
           Tags          \* value tags (>= 1)
 VARIABLE attrs
 
-None == [vlen |-> -1, tag |-> 0]                       \* "no such attribute" (uniformly typed for the trace)
+None == [vlen |-> -1, tag |-> 0, nz |-> 0]             \* "no such attribute" (uniformly typed for the trace)
 NormTag(v, t) == IF v = 0 THEN 0 ELSE t
-Val(v, t) == [vlen |-> v, tag |-> NormTag(v, t)]
+Val(v, t) == [vlen |-> v, tag |-> NormTag(v, t), nz |-> v]
+ValZ(v, t, z) == [vlen |-> v, tag |-> NormTag(z, t), nz |-> z]      \* z pattern bytes, then v - z zero bytes
 
-AbsTypeOK == attrs \in [Names -> {None} \cup [vlen : VLens, tag : Tags \cup {0}]]
+AbsTypeOK == \A n \in Names : \/ attrs[n] = None
+                               \/ /\ attrs[n].vlen \in Nat /\ attrs[n].tag \in Tags \cup {0}
+                                  /\ attrs[n].nz \in 0..attrs[n].vlen /\ (attrs[n].tag = 0 <=> attrs[n].nz = 0)
 
 AInit(present) == attrs = [n \in Names |-> IF n \in present THEN Val(0, 0) ELSE None]
 ASet(n, v, t)  == attrs' = [attrs EXCEPT ![n] = Val(v, t)]
 ARefused       == UNCHANGED attrs
 ARemove(n)     == attrs' = [attrs EXCEPT ![n] = None]
+APut(n, val)   == attrs' = [attrs EXCEPT ![n] = val]          \* another subsystem rewrites one attribute (inline data)
 Get(n)         == attrs[n]
 
 \* stand-alone behaviour of the abstract object (used only to sanity-check this module on its own)
